@@ -296,3 +296,40 @@ func RelTrace(full, dir string) string {
 
 // Goroutines is used by leak checks.
 func Goroutines() int { return runtime.NumGoroutine() }
+
+var faultLogOnce sync.Once
+var faultLogPath string
+
+// EnableFaultLog points the schema-library overlay (see /verif/overlay) at a
+// per-process log file.
+func EnableFaultLog() {
+	faultLogOnce.Do(func() {
+		faultLogPath = filepath.Join(ScratchBase(), "faultlog")
+		_ = os.Setenv("VERIF_FAULTLOG", faultLogPath)
+	})
+}
+
+// LastFaultOrigin returns the innermost library frame of the last runtime
+// fault the schema library converted into an error ("" when the overlay is
+// not compiled in or nothing was logged), and truncates the log.
+func LastFaultOrigin() string {
+	if faultLogPath == "" {
+		return ""
+	}
+	b, err := os.ReadFile(faultLogPath)
+	if err != nil || len(b) == 0 {
+		return ""
+	}
+	_ = os.Truncate(faultLogPath, 0)
+	s := string(b)
+	i := strings.LastIndex(s, "FAULT ")
+	if i < 0 {
+		return ""
+	}
+	entry := s[i:]
+	sig := PanicSig("", entry)
+	if j := strings.Index(sig, "@ "); j >= 0 {
+		return sig[j+2:]
+	}
+	return ""
+}
